@@ -185,6 +185,12 @@ func TestC15bStoredValues(t *testing.T) {
 				}
 				n.App.Step()
 				n.SettleReader("first connect of the adopted client")
+				noPanics(n)
+				// (the client-identifier record is the open finding F17, judged by C16's probe)
+				// (… and with a Persistence which refuses the Delete the altered record stays where it is)
+				if last, ok := n.App.Last(); key != 0 && len(adoptFaults) == 0 && ok && !n.App.InCall() && last.Err != nil {
+					n.Failf("record %#x was altered; it is reported (%v), yet it still takes part in the session: the first ReadSlices of the adopted client fails with %v", key, n.Warn, last.Err)
+				}
 				for _, c := range n.AllConns() {
 					out := c.OutCopy()
 					ps, _, _ := refmqtt.DecodeAll(out)
